@@ -256,6 +256,20 @@ def run(tier, replay=None):
     if not summ:
         raise vlib.ToolError("replay_exchange produced no summary")
     summ = summ[0]
+    terrs = [o for o in out if o.get("kind") == "toolerror"]
+    if terrs and not replay and len(terrs) <= 20:
+        # the harness could not run a scenario (a scripted peer failed to set itself up on the loaded machine):
+        # those scenarios are executed again, alone; a second failure is a tool error (exit 2)
+        want = {o.get("id") for o in terrs}
+        terr_path = os.path.join(wd, "toolerror_again.ndjson")
+        with open(terr_path, "w") as f:
+            for line in open(scen_path):
+                if json.loads(line).get("id") in want:
+                    f.write(line)
+        out_t = vlib.run_harness(bins["replay_exchange"], ["--threads", "2", "--rigs", "1"], stdin_path=terr_path, timeout=3000)
+        out = [o for o in out if o.get("kind") != "toolerror"] + [o for o in out_t if o.get("kind") != "summary"]
+        summ["requests"] += sum(o.get("requests", 0) for o in out_t if o.get("kind") == "summary")
+        vlib.log("%d scenario(s) could not be set up and were executed again alone" % len(terrs))
     for o in out:
         if o.get("kind") == "toolerror":
             raise vlib.ToolError("replay_exchange: scenario %s: %s" % (o.get("id"), o.get("why")))
